@@ -55,6 +55,35 @@ def lattice_check(run, n, computer, edges, monotone):
     return evals, fails
 
 
+def lattice_path(run, n, computer, v, K, reveals):
+    """One game object, recomputed after every reveal (stale tables are what the next computation starts from)."""
+    from pyvc.mode import native_pkg
+    P = native_pkg()
+    game_m, bounds, co, model = P.mod("game"), P.mod("bounds"), P.mod("coalitions"), P.mod("run.model")
+    gaps = model.GAP_FUNCTIONS
+    g = game_m.IncompleteCooperativeGame(n, bounds.BOUNDS[computer])
+    g.set_known_values([v[c] for c in K], [co.Coalition(c) for c in K])
+    g.compute_bounds()
+    evals = fails = 0
+    for s in reveals:
+        lo0, up0 = g.get_lower_bounds().copy(), g.get_upper_bounds().copy()
+        gap0 = {k: float(f(g)) for k, f in gaps.items()}
+        g.reveal_value(v[s], co.Coalition(s))
+        g.compute_bounds()
+        lo1, up1 = g.get_lower_bounds(), g.get_upper_bounds()
+        gap1 = {k: float(f(g)) for k, f in gaps.items()}
+        evals += 1
+        ok = all(lo1[c] >= lo0[c] - 1e-9 and up1[c] <= up0[c] + 1e-9 for c in range(1 << n)) and all(gap1[k] <= gap0[k] + 1e-9 for k in gaps)
+        if not ok:
+            fails += 1
+            run._report_violation(f"path.{computer}[n={n}]/edge_shrinks", S.sc_reveal_shrinks, {"n": n, "computer": computer, "s": s},
+                                  gen.game_inputs(v, set(K), n), True, detail={"layer": "bounded", "revealed": s, "gap_before": gap0, "gap_after": gap1})
+            break
+    run.native_evals += evals
+    run.native_distinct.update(("path", computer, n, tuple(K), j) for j in range(evals))
+    return evals, fails
+
+
 def edges_for(run, n, monotone, count, exhaustive):
     mini = set(minimal(n))
     non_min = [c for c in range(1 << n) if c not in mini]
@@ -97,6 +126,13 @@ def main(run):
         if n <= 4:
             for s in sam_picks:
                 run.prove(f"shrinks.sam_apx_1[n={n},s={s}]", S.sc_reveal_shrinks, {"n": n, "computer": "sam_apx_1", "s": s})
+    # the SAM approximation for EVERY repetition count: relational invariant over the cut loop
+    cut = S.sam_cut_package()
+    for n in (3, 4):
+        non_min = [c for c in range(1 << n) if c not in minimal(n)]
+        for s in (non_min if n == 3 else run.rng.sample(non_min, 3 if quick else 10)):
+            for mode in ("iter", "exit"):
+                run.prove(f"shrinks.sam_all_counts.{mode}[n={n},s={s}]", S.sc_sam_shrinks_relational, {"n": n, "s": s, "mode": mode}, pkg=cut)
     if quick:
         # the smallest player count at which a split through mere bounds can beat a split into two known coalitions
         non_min5 = [c for c in range(32) if c not in minimal(5)]
@@ -106,6 +142,9 @@ def main(run):
             run.prove(f"shrinks.superadditive[n=5,s={s}]", S.sc_reveal_shrinks, {"n": 5, "computer": "superadditive", "s": s})
     for n in ((2, 3, 4, 5) if quick else (2, 3, 4, 5, 6)):
         for gap in S.GAPS:
+            for comp in ("superadditive", "superadditive_cached", "sam_apx_1", "sam_apx_1000"):
+                if n <= 4:
+                    run.prove(f"zero_at_full.{comp}.{gap}[n={n}]", S.sc_gap_zero_at_full_knowledge, {"n": n, "computer": comp, "gap": gap})
             run.prove(f"gap.{gap}[n={n}]", S.sc_gap_contract, {"n": n, "gap": gap})
             run.prove(f"lemma.gap.{gap}[n={n}]", S.lem_gap_monotone, {"n": n, "gap": gap}, lemma=True)
     run.discharge()
@@ -121,6 +160,19 @@ def main(run):
             count = (40 if n <= 5 else 6) if quick else 150
             e, f = lattice_check(run, n, comp, edges_for(run, n, mono, count, exhaustive), mono)
             rows.append({"computer": comp, "n": n, "edges": e, "failures": f, "exhaustive_lattice": exhaustive})
+    # reveal paths on instances where the SAM repetitions matter (history-dependent early exits show only there)
+    from rt import instances
+    sens = 0
+    for n, v, K, R in instances.repetition_sensitive(run.rng, 2 if quick else 8):
+        for comp in ("sam_apx_1", "sam_apx_10"):
+            known = list(K)
+            edges = []
+            for s in R:
+                edges.append((v, sorted(known), s))
+                known.append(s)
+            e, f = lattice_path(run, n, comp, v, K, R)
+            sens += e
+    rows.append({"computer": "sam_apx_1/10", "n": "6,7", "edges": sens, "kind": "repetition-sensitive reveal paths on ONE game object"})
     run.bounded.append({"label": "knowledge-lattice edges on the real package", "rows": rows,
                         "bound": "every edge of the lattice for n=3 (n=4 in thorough), seeded edges above; all four gap functions; "
                                  "all registered computers with a game of the matching class; slack 1e-9*scale"})
